@@ -16,7 +16,7 @@ use crate::sim::stream::{Driver, Faults, Monitor, StreamOpts};
 pub const SPEC: PropSpec = PropSpec {
     id: "C09",
     level: "exploration",
-    rule: "E1 runs (1-3 uplinks through the real handshake, real handle_uplink_packet arm) in which an arbitrary-bytes generator injects uplink datagrams: EXHAUSTIVE over all 65536 two-byte type codes x lengths {2,3,9,10,19,20,38,258,1500} with PRNG bodies (sharded over the cases of a run), plus random lengths 0..1500, plus mutated valid frames (SRT ACK, SRT NAK with singles / ranges up to and beyond the 1000-entry cap, SRTLA ACK lists of 0..374 entries naming held, unheld and duplicate sequence numbers, keepalives with every timestamp class, REG2 full / short / foreign id, REG3, REG_ERR, REG_NGP, truncations of all of them), before and after the first client datagram, on registering / warming / live / awaiting-echo / silent / disconnected links, interleaved with client data (so sequences are held), housekeeping arms and sim-receiver replies. Oracle per injected datagram: reference classifier (len >= 2 and type in {REG2, REG3, REG_ERR, REG_NGP, SRTLA ACK, keepalive} = internal): client known and not internal => the client socket receives >= 1 datagram, all byte-identical to it; otherwise nothing; last_received = now for every non-registration datagram of >= 2 bytes; the delivery-proof stamp of a link moves only if that link lost a held sequence to an SRTLA ACK entry of this datagram or answered an outstanding keepalive probe (>= 10 bytes, 0 < now - ts <= 10 s); no panic (overflow checks on). Non-trivial = every injection; distinct = distinct (type code, length class, client known, link state) tuples.",
+    rule: "E1 runs (1-3 uplinks through the real handshake, real handle_uplink_packet arm) in which an arbitrary-bytes generator injects uplink datagrams: EXHAUSTIVE over all 65536 two-byte type codes x lengths {2,3,9,10,19,20,38,258,1500} with PRNG bodies (sharded over the cases of a run), plus random lengths 0..1500, plus mutated valid frames (SRT ACK, SRT NAK with singles / ranges up to and beyond the 1000-entry cap, SRTLA ACK lists of 0..374 entries naming held, unheld and duplicate sequence numbers, keepalives with every timestamp class, REG2 full / short / foreign id, REG3, REG_ERR, REG_NGP, truncations of all of them), before and after the first client datagram, on registering / warming / live / awaiting-echo / silent / disconnected links, interleaved with client data (so sequences are held), housekeeping arms and sim-receiver replies. Oracle per injected datagram: reference classifier (len >= 2 and type in {REG2, REG3, REG_ERR, REG_NGP, SRTLA ACK, keepalive} = internal): client known and not internal => the client socket receives >= 1 datagram, all byte-identical to it; otherwise nothing; last_received = now for every non-registration datagram of >= 2 bytes; the delivery-proof stamp of a link moves only if that link lost a held sequence to an SRTLA ACK entry of this datagram or answered an outstanding keepalive probe (>= 10 bytes, 0 < now - ts <= 10 s); no panic (overflow checks on). Non-trivial = every injection; distinct = distinct (type code, length class, client known, link state) tuples. E6 live lane (12 sessions quick / 96 thorough): the PRODUCTION run_sender_with_config (real tokio::select! loop, reader tasks with recvmmsg, instant-ACK forwarder, timers, SIGHUP stream, control socket) runs in a real process (vlive) on loopback sockets and the real clock; the harness plays the SRT client, the SRTLA receiver model, path faults, receiver restarts, SIGHUP reloads and hostile return traffic, observes every datagram on both sides with kernel receive timestamps and uses the sender's own stats pushes (one per housekeeping tick) as its logical clock. Live oracles for this property: the SRT client never receives an SRTLA-internal datagram nor one the receiver side did not send; every non-internal datagram of >= 2 bytes sent to an undisturbed connected uplink (SRT ACK / NAK, unknown control types, data-looking, arbitrary bytes, truncated ACK / NAK, oversized NAK range) reaches the client at least as often as it was sent (judged only if the kernel's UDP drop counters did not move); REG3-typed, keepalive-typed and ragged SRTLA-ACK-typed junk and 1-byte datagrams must not kill the process.",
     assumptions: &["the sim SRT client reads the relayed bytes from a real loopback socket; loopback delivery is synchronous in practice (a missed relay would be re-checked against late frames only by re-running)"],
     floors: &[
         ("c09.injected", 600_000, 12_000_000),
@@ -29,6 +29,9 @@ pub const SPEC: PropSpec = PropSpec {
         ("c09.before_client_known", 5_000, 150_000),
         ("c09.nak_beyond_cap", 50, 1_500),
         ("c09.srtla_ack_lists", 2_000, 60_000),
+        ("live.C09.completeness_checked", 6, 48),
+        ("live.C09.hostile_datagrams_sent", 500, 4000),
+        ("live.C09.return_datagrams_expected", 3000, 24000),
     ],
 };
 
@@ -209,7 +212,18 @@ pub fn run_case(case: u64, total_cases: u64, extra: usize, rng: &mut Rng, rep: &
     }
 }
 
+
+use crate::live::Scenario as S;
+/// scenario mix of this property's live lane (E6)
+#[allow(unused_imports)]
+const LIVE_SCENARIOS: &[(S, u32)] = &[(S::HostileReturn, 4), (S::Steady, 1), (S::NoReturn, 1)];
+
 pub fn run(cfg: &RunCfg) -> Report {
+    if crate::live::is_live_lane(cfg) {
+        let mut rep = Report::new();
+        crate::live::prop_lane(cfg, &mut rep, "C09", LIVE_SCENARIOS);
+        return rep;
+    }
     // the exhaustive stratum is sharded over the first 64 cases (power of two so that 65536 divides evenly)
     let shards: u64 = 64;
     let cases = cfg.cases(64, 2048).max(shards);
@@ -218,5 +232,7 @@ pub fn run(cfg: &RunCfg) -> Report {
     if rep.get("c09.exhaustive_type_codes_x_lengths") == 65_536 * 9 {
         rep.notes.insert("exhaustive_stratum".into(), serde_json::json!("all 65536 type codes x 9 lengths were injected in this run"));
     }
+    // E6: the production event loop in a real process (reader tasks, recvmmsg, instant-ACK forwarder)
+    crate::live::prop_lane(cfg, &mut rep, "C09", LIVE_SCENARIOS);
     rep
 }
